@@ -27,6 +27,7 @@ Theorem C16_unmentioned_keeps_tag : forall c rec sn cus fi fv fs b t0 t,
   on_fields c rec sn cus ((fi, fv) :: fs) b =
   (b1 <- on_rules c rec sn (f_name fi) fv (names_split COMMA (t0 :: t)) b ;; on_fields c rec sn cus fs b1).
 Proof. exact unmentioned_keeps_tag. Qed.
+Print Assumptions C16_unmentioned_keeps_tag.
 Print Assumptions C16_replaces_entirely.
 
 (* a name resolves to this call's function, else the globally registered one, else the built-in *)
@@ -45,6 +46,7 @@ Theorem C16_resolve_order : forall c name,
     end
   end.
 Proof. exact resolve_order. Qed.
+Print Assumptions C16_resolve_order.
 
 (* an unknown name writes an error clause for that field; the field's other rules are still evaluated *)
 Theorem C16_unknown_keeps_going : forall c rec sn fname fv vn vns b,
